@@ -88,29 +88,49 @@ func VfC04_QueryABA() {
 	vfC04Finish(s, d, a)
 }
 
-// VfC04_Merge: a state-sync merge of an arbitrary bounded payload (status
-// times, left members, events; as initial join or periodic sync) queues nothing
-// on any broadcast queue. (Claims about the local node are C03's subject.)
+// VfC04_MergeMembers / VfC04_MergeEvents: a state-sync merge of an arbitrary
+// bounded payload (status times, left members, events; as initial join or
+// periodic sync) queues nothing on any broadcast queue. (Claims about the local
+// node are C03's subject.) The member part and the event part of the merge do
+// not interact (disjoint state), so they are explored separately: the path
+// count is the sum instead of the product.
 //
 //vf:unwind 16
 //vf:paths quick=400000 thorough=4000000
-//vf:bound state 1 known member + buffered intent for an unknown node; event buffer of length 2; payload: status times for <=2 names (1 may be left), <=1 event; all times symbolic below 2^62
+//vf:bound state 1 known member + buffered intent for an unknown node; payload: status times for <=2 names (each may be listed as left); all times symbolic below 2^62
 //vf:stub codec -> identity on tokens; transmit queues recorded
 //vf:nonative
-func VfC04_Merge() {
+func VfC04_MergeMembers() {
 	s := vfNewSerf("self", 2)
 	vfMembers(s, 1)
 	vfArbIntents(s, []string{"m1"})
 	c := vfU64("clock")
 	vfAssume(c < 1<<62)
 	s.clock.counter.Store(c)
-	vfArbEventBuffer(s, 2)
 	s.eventJoinIgnore.Store(vfBool("joinIgnore"))
 	d := &delegate{serf: s}
-	buf, _ := vfArbPushPull([]string{"m0", "m1"})
+	buf, _ := vfArbPushPullParts([]string{"m0", "m1"}, false)
 	q0 := vfQueuedTotal(s)
 	d.MergeRemoteState(buf, vfBool("isJoin"))
 	vfReach("C04.merge.done")
 	vfAssert("C04.merge.noqueue", vfQueuedTotal(s) == q0)
 	vfAssert("C04.merge.nospawn", vfSpawnedCount() == 0)
+}
+
+//vf:unwind 16
+//vf:paths quick=400000 thorough=4000000
+//vf:bound state event buffer of length 2 with symbolic content; payload: <=1 recorded event, symbolic clocks; all times symbolic below 2^62
+//vf:stub codec -> identity on tokens; transmit queues recorded
+//vf:nonative
+func VfC04_MergeEvents() {
+	s := vfNewSerf("self", 2)
+	vfArbEventBuffer(s, 2)
+	s.eventJoinIgnore.Store(vfBool("joinIgnore"))
+	d := &delegate{serf: s}
+	buf, _ := vfArbPushPullParts(nil, true)
+	q0 := vfQueuedTotal(s)
+	d.MergeRemoteState(buf, vfBool("isJoin"))
+	vfReach("C04.mergeev.done")
+	vfAssert("C04.mergeev.noqueue", vfQueuedTotal(s) == q0)
+	vfAssert("C04.mergeev.nospawn", vfSpawnedCount() == 0)
 }
